@@ -59,7 +59,7 @@ func TestC11Binary(t *testing.T) {
 		t.Skipf("prunner binary not built: %v", err)
 	}
 	vh := helper(t)
-	col := ev.Get("C11", "binary", "the real prunner binary (go build ./cmd/prunner from the tree under test) with a generated pipelines.yml of 'vhelper hang' tasks (two-task chain, concurrency 1, queue) is started, 2-4 jobs are scheduled over HTTP, and SIGINT (graceful) or SIGTERM (forced) is sent at a generated instant, in half of the cases followed 1-60 ms later by a reload request (SIGUSR1), SIGINT may be followed by SIGTERM or by a second SIGINT (which must change nothing), and always accompanied by schedule requests every 15 ms until the process is gone; oracle: every job accepted during the shutdown is in the store in a terminal state, the program does not crash, the process exits within the bound (graceful: remaining task time + 3 s; forced: 2 s kill timeout + 3 s), data.json loads and holds every accepted job in a terminal state; SIGINT => the running job ran both tasks to their end and is reported completed, waiting jobs are canceled and never ran; SIGTERM => no helper process is alive afterwards and the running job is reported canceled; non-trivial = a job was running and another waiting when the signal arrived; distinct by (signal, instant, task duration)")
+	col := ev.Get("C11", "binary", "the real prunner binary (go build ./cmd/prunner from the tree under test) with a generated pipelines.yml of 'vhelper hang' tasks (two-task chain, concurrency 1, queue) is started, 2-4 jobs are scheduled over HTTP, and SIGINT (graceful) or SIGTERM (forced) is sent at a generated instant, in half of the cases followed 1-60 ms later by a reload request (SIGUSR1), SIGINT may be followed by SIGTERM or by a second SIGINT (which must change nothing), and always accompanied by schedule requests every 15 ms until the process is gone; oracle: every job accepted during the shutdown is in the store in a terminal state, the program does not crash, the process exits within the bound (graceful: remaining task time + one 3 s poll + 4 s; forced: 2 s kill timeout + 5 s), data.json loads and holds every accepted job in a terminal state; SIGINT => the running job ran both tasks to their end and is reported completed, waiting jobs are canceled and never ran; SIGTERM => no helper process is alive afterwards and the running job is reported canceled; non-trivial = a job was running and another waiting when the signal arrived; distinct by (signal, instant, task duration)")
 	auth := jwtauth.New("HS256", []byte(binSecret), nil)
 	_, token, _ := auth.Encode(map[string]interface{}{"sub": "bin"})
 	rapid.Check(t, func(rt *rapid.T) {
@@ -172,9 +172,11 @@ func TestC11Binary(t *testing.T) {
 			time.Sleep(time.Duration(rapid.IntRange(5, durMs).Draw(rt, "repeatAfterMs")) * time.Millisecond)
 			_ = cmd.Process.Signal(syscall.SIGINT)
 		}
-		bound := time.Duration(2*durMs)*time.Millisecond + 3*time.Second
+		// (a graceful shutdown looks every 3 s - the program's poll interval - whether its jobs have ended: the two
+		// tasks, one poll, and as much again for a loaded machine)
+		bound := time.Duration(2*durMs)*time.Millisecond + 3*time.Second + 4*time.Second
 		if sig == syscall.SIGTERM || escalate {
-			bound = 2*time.Second + 3*time.Second
+			bound = 2*time.Second + 5*time.Second
 		}
 		select {
 		case <-exited:
